@@ -199,6 +199,34 @@ Theorem loader_accepts_iff_match_other_algorithms : forall c k,
 Proof. intros c k H. split; [apply X509KeyPair_iff|apply GMX509KeyPairsSingle_iff]; exact H. Qed.
 Print Assumptions loader_accepts_iff_match_other_algorithms.
 
+(* Round 6.  Parser and loaders composed: a PKCS#8 key file with scalar d < n whose OPTIONAL publicKey field holds any
+   pair (x, y) whatsoever - [d]G as the package writes it, or the point of somebody else's certificate - is accepted with an
+   SM2 certificate of the point (cx, cy) exactly when [d]G = (cx, cy), by the single-pair loaders and in the signing and
+   the encryption slot of the dual loader.  The embedded copy of the point never decides (it is not read: see
+   pkcs8_plain_roundtrip); so a file with a foreign scalar and the certificate's point is refused.  Same level as
+   the loader theorems above (hand-transcribed decision logic); tie = FK cases with public key option 2. *)
+Theorem loader_decides_on_the_scalar : forall (base_mult : N -> N * N) d x y tail cx cy, d < sm2N ->
+  let k := sm2_key_of (ParsePKCS8UnecryptedPrivateKey base_mult (MarshalSm2UnecryptedPrivateKey d x y ++ tail)) in
+  (X509KeyPair (CEc O cx cy) k = true <-> base_mult d = (cx, cy))
+  /\ (GMX509KeyPairsSingle (CEc O cx cy) k = true <-> base_mult d = (cx, cy))
+  /\ (forall ec ek, GMX509KeyPairs (CEc O cx cy) k ec ek = true <-> base_mult d = (cx, cy) /\ sm2_pair ec ek)
+  /\ (forall sc sk, GMX509KeyPairs sc sk (CEc O cx cy) k = true <-> sm2_pair sc sk /\ base_mult d = (cx, cy)).
+Proof. exact loaders_decide_on_scalar. Qed.
+Print Assumptions loader_decides_on_the_scalar.
+
+(* non-vacuity, toy base_mult d = (d+1, d+2): the file (d = 5, embedded point (8, 9) = the point of d = 7) is the key of the
+   certificate (6, 7) and not of the certificate (8, 9) whose point it carries; the consistent file of d = 7 is *)
+Example loader_foreign_scalar_refused :
+  let bm := fun d => (d + 1, d + 2) in
+  let forged := sm2_key_of (ParsePKCS8UnecryptedPrivateKey bm (MarshalSm2UnecryptedPrivateKey 5 8 9)) in
+  let honest := sm2_key_of (ParsePKCS8UnecryptedPrivateKey bm (MarshalSm2UnecryptedPrivateKey 7 8 9)) in
+  forged = KSm2 6 7 /\ honest = KSm2 8 9
+  /\ X509KeyPair (CEc 0 8 9) forged = false /\ GMX509KeyPairsSingle (CEc 0 8 9) forged = false
+  /\ GMX509KeyPairs (CEc 0 8 9) forged (CEc 0 8 9) honest = false /\ GMX509KeyPairs (CEc 0 8 9) honest (CEc 0 8 9) forged = false
+  /\ X509KeyPair (CEc 0 6 7) forged = true /\ GMX509KeyPairs (CEc 0 6 7) forged (CEc 0 8 9) honest = true
+  /\ X509KeyPair (CEc 0 8 9) honest = true.
+Proof. vm_compute. auto 12. Qed.
+
 (* PEM level (getCert / getKey / parsePrivateKey): the certificate that is matched is the FIRST "CERTIFICATE" block
    (later ones are the chain), the key is the FIRST block whose type is "PRIVATE KEY" or ends in " PRIVATE KEY" - later
    key blocks are never looked at - and its bytes must be PKCS#1 RSA, PKCS#8 RSA/ECDSA or PKCS#8 SM2: the label does
